@@ -792,6 +792,8 @@ class Interp:
         for item in s.items:
             m = self.eval(item.context_expr, fr)
             if getattr(m, "_pyvc_symbolic", False) or isinstance(m, NoOp):
+                if not hasattr(m, "__enter__"):
+                    raise Unsupported(f"{type(m).__name__} stand-in used as a context manager (not modelled)")
                 v = m.__enter__()
             elif isinstance(m, SObj):
                 raise Unsupported("with on repo object")
